@@ -109,6 +109,34 @@ static MatL gen_hess(const std::string& kind, int n, Rng& r, bool tridiag)
         if (H.norm() == 0)
             H(0, 0) = -1;
     }
+    if (kind == "subdiag")
+    {
+        // ONLY the first subdiagonal is non-zero (weighted shift; the companion matrix of x^n when all weights are 1): upper
+        // triangle and diagonal exactly zero, so any norm estimate that leaves the subdiagonal out sees the zero matrix
+        H.setZero();
+        const bool ints = r.below(2) == 0;
+        for (int i = 1; i < n; i++)
+            H(i, i - 1) = ints ? (LD)(1 + r.below(3)) : (0.5L + r.uni());
+    }
+    if (kind == "eqreal")
+    {
+        // block upper triangular, 2x2 diagonal blocks [a -b; b a] with the SAME real part a and different b (complex pairs with
+        // bit-identical real parts), exact zeros below the blocks, small integers above
+        H.setZero();
+        const LD a = (LD)(r.below(5) - 2);
+        for (int i = 0; i + 1 < n; i += 2)
+        {
+            const LD b = (LD)(1 + (i / 2) % 4);
+            H(i, i) = a; H(i, i + 1) = -b; H(i + 1, i) = b; H(i + 1, i + 1) = a;
+            for (int j = i + 2; j < n; j++)
+            {
+                H(i, j) = (LD)(r.below(3) - 1);
+                H(i + 1, j) = (LD)(r.below(3) - 1);
+            }
+        }
+        if (n % 2)
+            H(n - 1, n - 1) = a + 1;
+    }
     if (kind == "companion")
     {
         H.setZero();
@@ -131,7 +159,8 @@ static MatL gen_hess(const std::string& kind, int n, Rng& r, bool tridiag)
     return H;
 }
 
-static const char* KINDS[13] = {"rand", "integer", "graded", "deflated", "tiny", "ratio", "perm", "jordan", "companion", "zero", "repeated", "defective", "negdiag"};
+static const int NKINDS = 15;
+static const char* KINDS[NKINDS] = {"rand", "integer", "graded", "deflated", "tiny", "ratio", "perm", "jordan", "companion", "zero", "repeated", "defective", "negdiag", "subdiag", "eqreal"};
 
 // ---- C08 ----------------------------------------------------------------------------------------------------------
 template <typename T, typename QR>
@@ -283,7 +312,7 @@ static void qr_type(const Desc& d, int tycode)
     const int nmax = (int) d.i("nmax", 40);
     for (int c = 0; c < count; c++)
     {
-        const std::string kind = KINDS[c % 13];
+        const std::string kind = KINDS[c % NKINDS];
         int n = 2 + r.below(nmax - 1);
         if (c % 7 == 0)
             n = 2 + r.below(4);
@@ -349,7 +378,7 @@ static void eig_type(const Desc& d, int tycode)
     const int nmax = (int) d.i("nmax", 64);
     for (int c = 0; c < count; c++)
     {
-        const std::string kind = KINDS[c % 13];
+        const std::string kind = KINDS[c % NKINDS];
         if (kind == "tiny" && tycode == 1)
             continue;
         int n = 2 + r.below(nmax - 1);
